@@ -33,7 +33,8 @@ EXTENDS Integers, Sequences, TLC
 \* error (the retry succeeds): the connection is as alive as before
 \* "heofd": as "heof", with one more good message in the same fragment behind the one whose handler is running:
 \* it was received before the peer closed and is delivered once the handler returns
-Terminators == {"x", "xt", "xbig", "eof", "eofd", "rerr", "lclose", "mp", "mhp", "heof", "heofd", "idle"}
+\* "lclosew": local Close while another goroutine is blocked in a Write the transport does not accept
+Terminators == {"x", "xt", "xbig", "eof", "eofd", "rerr", "lclose", "lclosew", "mp", "mhp", "heof", "heofd", "idle"}
 Requests(ev) == IF ev \in {"mh", "mm", "cn", "mhp"} THEN 1 ELSE 0
 Delivers(ev) == CASE ev \in {"m", "mh", "mw", "m2", "mp", "mhp", "heof", "eofd"} -> 1 [] ev \in {"mm", "heofd"} -> 2 [] OTHER -> 0
 
@@ -53,7 +54,7 @@ Check(sched, steps, k, nreq, ndel, term) ==
            term2 == term \/ ev \in Terminators
            o == steps[k]
        IN IF o.panic THEN <<"panic">>
-          ELSE IF o.hung THEN <<"closenotify-call-did-not-return">>
+          ELSE IF o.hung THEN <<IF ev = "lclosew" THEN "close-did-not-return" ELSE "closenotify-call-did-not-return">>
           ELSE IF ev = "idle" /\ ~o.tclosed THEN <<"not-terminated-after-read-timeout">>
           ELSE IF ev \in {"heof", "heofd"} /\ Switched(sched, k) /\ (\E i \in 1..Len(o.held) : ~o.held[i]) THEN <<"not-closed-while-handler-runs">>
           ELSE IF Len(o.chans) # nreq2 THEN <<"harness-channel-count">>
